@@ -231,26 +231,39 @@ fn range_case(sk: u8, ek: u8) {
     let s: [u8; 2] = kani::any();
     let e: [u8; 2] = kani::any();
     let mut r = b.range(RB { s: bound_of(sk, &s), e: bound_of(ek, &e) });
-    // expected: the keys within the bounds, in order; the scan ends at the first key beyond the end bound
+    // four unconditional calls (conditional calls would fork the cursor state in the harness itself)
+    let d0 = r.next();
+    let d1 = r.next();
+    let d2 = r.next();
+    let d3 = r.next();
+    let got = [key_of(&d0), key_of(&d1), key_of(&d2), key_of(&d3)];
+    // expected: the keys within the bounds, in order, then nothing
+    let mut exp: [Option<[u8; 2]>; 4] = [None; 4];
+    let mut n = 0;
     let mut i = 0;
-    let mut done = false;
     while i < 3 {
-        if in_bounds(&keys[i], sk, &s, ek, &e) && !done {
-            let d = r.next();
-            assert!(key_of(&d) == Some(keys[i]), "a range scan yields exactly the entries within its bounds, in order");
-            std::mem::forget(d);
-        } else if in_bounds(&keys[i], sk, &s, 2, &e) {
-            // past the end bound: nothing more may be delivered
-            done = true;
+        if in_bounds(&keys[i], sk, &s, ek, &e) {
+            exp[n] = Some(keys[i]);
+            n += 1;
         }
         i += 1;
     }
-    let d = r.next();
-    assert!(d.is_none(), "and nothing else");
-    if sk != 2 && ek != 2 {
-        kani::cover!(in_bounds(&keys[1], sk, &s, ek, &e) && !in_bounds(&keys[0], sk, &s, ek, &e) && !in_bounds(&keys[2], sk, &s, ek, &e));
+    let mut j = 0;
+    while j < 4 {
+        assert!(got[j] == exp[j], "a range scan yields exactly the entries within its bounds, in order, and then nothing");
+        j += 1;
     }
-    kani::cover!(keys[1] == s);
+    if sk != 2 && ek != 2 {
+        kani::cover!(n == 1 && exp[0] == Some(keys[1]));
+    }
+    if sk != 2 {
+        kani::cover!(keys[1] == s);
+        kani::cover!(s < keys[0]);
+    }
+    std::mem::forget(d0);
+    std::mem::forget(d1);
+    std::mem::forget(d2);
+    std::mem::forget(d3);
     std::mem::forget(r);
     std::mem::forget(b);
 }
@@ -325,6 +338,15 @@ pub(crate) struct Ent<'a> {
     pub v: &'a [u8],
 }
 
+/// loop-free copy of at most 16 bytes (harness unwind bounds are spent on the code under test)
+unsafe fn put_bytes(dst: *mut u8, src: &[u8]) {
+    assert!(src.len() <= 16);
+    macro_rules! b {
+        ($($i:literal)*) => { $( if $i < src.len() { *dst.add($i) = src[$i]; } )* };
+    }
+    b!(0 1 2 3 4 5 6 7 8 9 10 11 12 13 14 15);
+}
+
 /// write a leaf page at `page_id` of TREE: header, element headers, then packed keys / values
 pub(crate) fn put_leaf_page(page_id: usize, overflow: u64, ents: &[Ent]) {
     put_leaf_page_at(tree_base(), page_id, overflow, ents)
@@ -349,17 +371,9 @@ pub(crate) fn put_leaf_page_at(image: *mut u8, page_id: usize, overflow: u64, en
             *(e.add(8) as *mut u64) = (off - (32 + 32 * i)) as u64;
             *(e.add(16) as *mut u64) = ents[i].k.len() as u64;
             *(e.add(24) as *mut u64) = ents[i].v.len() as u64;
-            let mut j = 0;
-            while j < ents[i].k.len() {
-                *base.add(off + j) = ents[i].k[j];
-                j += 1;
-            }
+            put_bytes(base.add(off), ents[i].k);
             off += ents[i].k.len();
-            let mut j = 0;
-            while j < ents[i].v.len() {
-                *base.add(off + j) = ents[i].v[j];
-                j += 1;
-            }
+            put_bytes(base.add(off), ents[i].v);
             off += ents[i].v.len();
             i += 1;
         }
@@ -382,11 +396,7 @@ pub(crate) fn put_branch_page(page_id: usize, overflow: u64, ents: &[(&[u8], u64
             *(e as *mut u64) = ents[i].1;
             *(e.add(8) as *mut u64) = ents[i].0.len() as u64;
             *(e.add(16) as *mut u64) = (off - (32 + 24 * i)) as u64;
-            let mut j = 0;
-            while j < ents[i].0.len() {
-                *base.add(off + j) = ents[i].0[j];
-                j += 1;
-            }
+            put_bytes(base.add(off), ents[i].0);
             off += ents[i].0.len();
             i += 1;
         }
